@@ -55,7 +55,11 @@ Next == Eval
 Spec == Init /\ [][Next]_<< sh, done >>
 
 Thm == WellFormed(sh) /\ ParseInverse(sh) /\ LengthLaw(sh)
-PF == \A t \in ShapesOver(sh.ver, sh.branch, PFCounts) : PrefixFree(sh, t) /\ PrefixFree(t, sh)
+\* prefix-freeness against every shape with counts in PFCounts, for the first branch of each version
+\* (the layouts of a version under its other branches differ only in the branch-id constant)
+FirstBranch(ver) == Branches[CHOOSE i \in DOMAIN Branches : ValidInBranch(ver, Branches[i]) /\ \A j \in 1..(i - 1) : ~ValidInBranch(ver, Branches[j])]
+PF == (done /\ sh \in BaseShapes /\ sh.branch = FirstBranch(sh.ver) /\ CountsOf(sh) \subseteq PFCounts) =>
+          \A t \in ShapesOver(sh.ver, sh.branch, PFCounts) : PrefixFree(sh, t) /\ PrefixFree(t, sh)
 
 ASSUME GrammarClosed
 ASSUME TablesInjective
